@@ -498,12 +498,14 @@ def st_spim(tier, shrink_div=False):
                 x["cs"] = [draw(st.integers(0, (1 << ncs) - 1)) if ncs > 1 else draw(st.sampled_from([1, 1, 0])), 0]
             if draw(st.integers(0, 5)) == 0:
                 x["loop"] = draw(st.integers(0, 1))
-            if draw(st.integers(0, 2)) == 0:
+            if draw(st.integers(0, 1)) == 0:
                 # a write landing while the transfer runs: second start (same length) or new mosi word
                 # (offsets near the end make the second start land in the last busy / first idle cycles: back-to-back)
                 x["over"] = [draw(st.one_of(st.integers(0, (x["len"] + 2) * div + 2),
-                                            st.integers(max(0, x["len"] * div - 2), (x["len"] + 2) * div + 2))),
-                             draw(st.sampled_from(["start", "start", "mosi"])), draw(st.integers(0, (1 << dw) - 1))]
+                                            st.integers(max(0, x["len"] * div - 2), (x["len"] + 2) * div + 2),
+                                            *([st.integers(max(0, x["len"] * div + div // 2 - 3), x["len"] * div + div + div // 2 + 1)] * 3))),
+                             draw(st.sampled_from(["start", "start", "mosi"])), draw(st.integers(0, (1 << dw) - 1)),
+                             draw(st.sampled_from([1, 1, 2, 4, 8]))]          # number of consecutive start writes
             x["poll_gap"] = draw(st.sampled_from([0, 0, 1, 2, 5]))
             xfers.append(x)
         return {"dw": dw, "mode": mode, "ncs": ncs, "div0": div0, "psel": psel, "xfers": xfers,
@@ -537,10 +539,12 @@ def run_spim(case):
                   ["w", "control", 1 | (x["len"] << 8)]]
         bound = (x["len"] + 2) * div + 8
         if "over" in x:
-            at, what, v = x["over"]
+            at, what, v = x["over"][:3]
+            burst = x["over"][3] if len(x["over"]) > 3 and what == "start" else 1
             items.append(["gap", at])
-            items.append(["w", "control", 1 | (x["len"] << 8)] if what == "start" else ["w", "mosi", v])
-            bound *= 2
+            for _ in range(burst):
+                items.append(["w", "control", 1 | (x["len"] << 8)] if what == "start" else ["w", "mosi", v])
+            bound = 2 * bound + burst
         items += [["gap", 2], ["wait", 2 * bound + 40], ["gap", x["poll_gap"]]]
         limit += 2 * bound + 40 + x["gap"] + x["poll_gap"] + 12
     if case["manual"]:
@@ -921,17 +925,17 @@ def st_watchdog(tier, probe=None):
         ops = []
         ctrl = {"enable": 0, "reset": 0, "pause": 0}
         for _ in range(draw(st.integers(4, 24))):
-            k = draw(st.sampled_from(["cycles", "feed", "feed", "ctrl", "ctrl", "halt", "clr", "ien"]))
+            k = draw(st.sampled_from(["cycles", "feed", "feed", "ctrl", "ctrl", "ctrl", "halt", "halt", "clr", "ien"]))
             if k == "cycles":
                 ops.append([draw(gap), "cycles", draw(val) & top])
             elif k in ("feed", "ctrl"):
                 if k == "ctrl":
-                    f = draw(st.sampled_from(["enable", "enable", "reset", "pause"]))
+                    f = draw(st.sampled_from(["enable", "enable", "reset", "pause", "pause"]))
                     ctrl[f] ^= 1
                 v = (1 if k == "feed" or draw(st.integers(0, 3)) == 0 else 0) | (ctrl["enable"] << 8) | (ctrl["reset"] << 16) | (ctrl["pause"] << 24)
                 ops.append([draw(gap), "control", v])
             elif k == "halt":
-                ops.append([draw(gap), "halt", draw(st.integers(0, 1))])
+                ops.append([draw(gap), "halt", draw(st.sampled_from([1, 1, 0]))])
             elif k == "clr":
                 ops.append([draw(gap), "ev_pending", 1])
             else:
@@ -976,6 +980,7 @@ def run_watchdog(case):
     trig_d = pending = 0
     wait_run = 0
     wait_prev = 0
+    paused = 0
     timeouts = feeds_running = saturated = 0
     exp = []
     strict = case.get("probe")
@@ -994,6 +999,8 @@ def run_watchdog(case):
             elif k == "ev_enable":
                 ien = v & 1
         enable = ((ctrl >> 8) & 1) & (1 - (halt_in & ((ctrl >> 24) & 1)))
+        if ((ctrl >> 8) & 1) and not enable and remaining:
+            paused += 1
         rmode = (ctrl >> 16) & 1
         trig = enable & execute
         wait = enable & execute & rmode
@@ -1044,6 +1051,8 @@ def run_watchdog(case):
         cls.append("watchdog:fed-while-counting")
     if saturated:
         cls.append("watchdog:saturated-at-zero")
+    if paused:
+        cls.append("watchdog:paused-while-cpu-halted")
     if timeouts >= 2:
         cls.append("watchdog:several-timeouts")
     return ok(nt=bool(feeds_running and saturated), cls=cls, cycles=cyc)
@@ -1305,6 +1314,21 @@ def run_i2c(case):
         if b - a < load + 1:
             return bad("i2c-clock", "%s: SCL %s for only %d cycles (cycle %d..%d), clock load %d means >= %d" % (
                 what, "high" if scl[a] else "low", b - a, a, b, load, load + 1), key="c19:i2c:clock", cls=cls, cycles=cyc)
+    # set-up times in units of the programmed half period: a (repeated) START / STOP edge on SDA comes no earlier than
+    # load+1 cycles after SCL went high; SDA changed for a data bit is stable for >= load cycles before SCL rises
+    for c in range(1, len(sda)):
+        if sda[c] == sda[c - 1]:
+            continue
+        if scl[c]:
+            r = max([e for e in edges if e <= c and scl[e]], default=None)
+            if r is not None and c - r < load + 1:
+                return bad("i2c-setup", "%s: %s condition at cycle %d only %d cycles after SCL rose (clock load %d means >= %d)" % (
+                    what, "STOP" if sda[c] else "START", c, c - r, load, load + 1), key="c19:i2c:setup", cls=cls, cycles=cyc)
+        else:
+            r = min([e for e in edges if e > c and scl[e]], default=None)
+            if r is not None and r - c < load:
+                return bad("i2c-setup", "%s: SDA changes at cycle %d, SCL rises %d cycles later (clock load %d means >= %d)" % (
+                    what, c, r - c, load, load), key="c19:i2c:setup", cls=cls, cycles=cyc)
     # status words: status[0] after the configuration write, status[i+1] after command i
     for i, c in enumerate(cmds):
         s = ag.status[i + 1]
@@ -1435,16 +1459,23 @@ def st_uartcore(tier, flush=False):
         depth_rx = draw(st.sampled_from([2, 4, 16]))
         gap = st.one_of(st.integers(0, 2), st.integers(0, 2), st.integers(0, 12))
         ops = []
-        for _ in range(draw(st.integers(6, 40))):
-            k = draw(st.sampled_from(["tx", "tx", "tx", "rd", "clr", "clr", "ien"]))
+        for _ in range(draw(st.integers(6, 16 if flush else 40))):
+            k = draw(st.sampled_from(["tx", "tx", "tx", "burst", "rd", "clr", "clr", "ien"]))
             if k == "tx":
                 ops.append([draw(gap), "tx", draw(st.integers(0, 255))])
+            elif k == "burst":
+                ops += [[0, "tx", draw(st.integers(0, 255))] for _ in range(draw(st.integers(2, 5)))]
             elif k == "rd":
                 ops.append([draw(gap), "rd", 0])
             elif k == "clr":
                 ops.append([draw(gap), "clr", draw(st.sampled_from([2, 2, 3, 1]))])
             else:
                 ops.append([draw(gap), "ien", draw(st.integers(0, 3))])
+        if flush:
+            # PHY not ready for longer than the flush time-out (16 cycles), then ready for a few cycles, ...
+            txs = ["rle", [[b, draw(st.integers(17, 30)) if b == 0 else draw(st.integers(1, 6))] for _ in range(3) for b in (0, 1)]]
+            return {"dtx": depth_tx, "drx": depth_rx, "rx_we": draw(st.booleans()), "ops": ops, "rx": [], "rxs": ["const", 1],
+                    "txs": txs, "flush": True}
         return {"dtx": depth_tx, "drx": depth_rx, "rx_we": draw(st.booleans()), "ops": ops,
                 "rx": draw(st.lists(st.integers(0, 255), min_size=0, max_size=20)), "rxs": draw(bench.st_schedule()),
                 "txs": draw(bench.st_schedule()), "flush": flush}
@@ -1482,7 +1513,8 @@ def run_uartcore(case):
     tr = probe.trace
     what = "UART(tx_fifo_depth=%d, rx_fifo_depth=%d, rx_fifo_rx_we=%r%s)" % (case["dtx"], case["drx"], case["rx_we"],
                                                                              ", auto tx flush" if case["flush"] else "")
-    cls = ["uart:dtx%d" % case["dtx"], "uart:drx%d" % case["drx"]] + (["uart:auto-flush"] if case["flush"] else [])
+    cls = ["uart:dtx%d" % case["dtx"], "uart:drx%d" % case["drx"]] + (["uart:auto-flush"] if case["flush"] else []) + \
+          (["uart:pop-on-read"] if case["rx_we"] else ["uart:pop-on-pending-clear"])
     accepted, dropped, popped = [], 0, []
     tp = rp = 0
     ttd = rtd = 0
@@ -1563,7 +1595,7 @@ def subchecks():
             rule="Watchdog behind its CSRs (+ halted input): cycles/feed/enable/reset/pause histories; remaining count (feed, one step "
                  "per enabled cycle, saturation at 0, pause), time-out event, pending/irq, crg_rst after reset_delay; nt = fed while "
                  "counting and saturated at zero"),
-        Sub("watchdog-delay0", run_watchdog, strategy=lambda tier: st_watchdog(tier, probe="delay0"), examples=(32, 400), shards=(2, 16),
+        Sub("watchdog-delay0", run_watchdog, strategy=lambda tier: st_watchdog(tier, probe="delay0"), examples=(32, 400), shards=(1, 16),
             rule="as watchdog with reset_delay=0 (the constructor default), kept apart because of finding c19:watchdog:reset-delay-0"),
         Sub("i2c", run_i2c, strategy=st_i2c, examples=(208, 5000), shards=(8, 16),
             rule="I2CMaster at its pads (mock open-drain tristates, scripted Migen slave): protocol-shaped transactions issued like "
@@ -1578,13 +1610,13 @@ def subchecks():
             rule="UART core behind its CSRs with a stub PHY (stream agents): bytes written while txfull=0 reach the PHY once and in "
                  "order, bytes from the PHY are popped in order (pending-clear or read strobe), event lines follow the FIFO flags, "
                  "pending/irq model, everything drains; nt = >= 3 bytes each way"),
-        Sub("uart-core-flush", run_uartcore, strategy=lambda tier: st_uartcore(tier, flush=True), examples=(32, 800), shards=(2, 16),
+        Sub("uart-core-flush", run_uartcore, strategy=lambda tier: st_uartcore(tier, flush=True), examples=(32, 800), shards=(1, 16),
             rule="as uart-core with add_auto_tx_flush (16 cycles): bytes reaching the PHY are a subsequence of the accepted ones, "
                  "everything drains even if the PHY never becomes ready (kept apart because of finding c19:uart:auto-flush-duplicate)"),
-        Sub("i2c-busy", run_i2c, strategy=lambda tier: st_i2c(tier, busy=True), examples=(48, 800), shards=(2, 16),
+        Sub("i2c-busy", run_i2c, strategy=lambda tier: st_i2c(tier, busy=True), examples=(48, 800), shards=(1, 16),
             rule="as i2c/any, but commands are written at arbitrary times, also while the previous one is running (kept apart because "
                  "of finding c19:i2c:command-while-busy)"),
-        Sub("spim-divider", run_spim, strategy=lambda tier: st_spim(tier, shrink_div=True), examples=(48, 800), shards=(2, 16),
+        Sub("spim-divider", run_spim, strategy=lambda tier: st_spim(tier, shrink_div=True), examples=(48, 800), shards=(1, 16),
             rule="as spim, but the divider register is also lowered between transfers (kept apart because of finding "
                  "c19:spim:divider-shrink-stall, so that the search in 'spim' continues)"),
         Sub("spim", run_spim, strategy=st_spim, examples=(320, 8000), shards=(10, 16),
